@@ -58,6 +58,8 @@ class Harness:
         self.ns = R.pgns.__dict__
         self.calls = []
         self.last_msg = [None]
+        self.logged_deferred = set()
+        self.keep = []
         U = R.utils
         self.real = {k: getattr(U, k) for k in ("decode_number", "decode_float", "decode_time", "decode_date",
                                                  "decode_bit_lookup", "decode_string_fix", "decode_int")}
@@ -72,6 +74,8 @@ class Harness:
                 n0 = len(ex.deferred)
                 r = s(*a)
                 g = [d[0] for d in ex.deferred[n0:]]
+                self.logged_deferred.update(id(d) for d in ex.deferred[n0:])
+                self.keep.extend(ex.deferred[n0:])
                 self.calls.append((name, a, r, z3.Or(*g) if g else z3.BoolVal(False)))
                 return r
             return w
@@ -121,12 +125,14 @@ class Harness:
 
     def run_def(self, fn, payload):
         self.calls = []
+        self.logged_deferred = set()
+        self.keep = []
         self.last_msg[0] = None
         try:
             m = fn(payload)
-            return ("full", m, list(self.calls))
+            return ("full", m, list(self.calls), (set(self.logged_deferred), list(self.keep)))
         except StopDefinition:
-            return ("prefix", self.last_msg[0], list(self.calls))
+            return ("prefix", self.last_msg[0], list(self.calls), (set(self.logged_deferred), list(self.keep)))
 
 
 def layout(p):
@@ -247,7 +253,8 @@ def _defs_worker(idxs):
             if pa.kind != "return":
                 rep.inconc("%s: path ended with %s" % (p.id, pa.kind))
                 continue
-            mode, m, calls = pa.value
+            mode, m, calls, logged_def = pa.value
+            H.logged_deferred = logged_def[0]
             if m is None:
                 rep.error("%s: no message captured" % p.id)
                 continue
@@ -479,10 +486,27 @@ def check_message(rep, D, H, p, m, calls, pa, pv, fvars, mode, sigs, out):
             need(eq_term(got.value, rf), "value-bits", "value is not decode_float of the field's bits")
             if callinfo is not None:
                 need(callinfo[2] == rfc, "raise-guard", "float range check differs from the database range")
-    # --- nothing else can make the definition fail: all deferred guards belong to logged kernel calls
-    logged = sum(1 for c in calls if not z3.is_false(z3.simplify(c[3])))
-    if len(pa.deferred) != logged:
-        rep.error("%s: %d deferred raise guards, %d logged" % (p.id, len(pa.deferred), logged))
+    # --- nothing else can make the definition fail: every deferred guard is either a logged kernel range check
+    # (compared with the database above) or must be unsatisfiable on well-formed payloads
+    varbin = [f for f in p.fields if f.type == "BINARY" and f.len is None and f.d.get("BitLengthField")]
+    for d_ in pa.deferred:
+        g, exc = d_
+        if id(d_) in H.logged_deferred:
+            continue
+        allowed = z3.BoolVal(False)
+        if varbin:
+            lf = p.fields[varbin[0].d["BitLengthField"] - 1]
+            if lf.order in fvars:
+                allowed = fvars[lf.order] == z3.BitVecVal(Sig(lf).sentinel, lf.len)
+        st, mm = prove(z3.Implies(g, allowed), label="extra-raise-guard")
+        if st == "sat":
+            bad({"kind": "decoder-raises", "def": p.id, "exc": type(exc).__name__},
+                "%s raises %s for payload %s" % (p.id, type(exc).__name__, model_payload(mm)),
+                {"kind": "decode", "def": p.id, "payload": model_payload(mm), "expect": "no-raise"})
+        elif st == "unknown":
+            rep.inconc("%s: extra raise guard undecided" % p.id)
+        elif varbin:
+            out("payloads whose BINARY length field is 'not available' (not well-formed)")
     return nchk, nbad
 
 
